@@ -5,8 +5,22 @@ use crate::{Runner, Stats};
 use discv5::packet::{PacketKind, ProtocolIdentity};
 use discv5::verif::{enr_decode_prefix, packet_decode, packet_encode, RawPacket};
 
-const PID: &[u8] = b"discv5";
-const VER: &[u8] = &[0, 1];
+const DEFAULT_PID: &[u8] = b"discv5";
+const DEFAULT_VER: &[u8] = &[0, 1];
+
+thread_local! {
+    /// The protocol identity of the network the current case plays in (`ConfigBuilder::protocol_identity`):
+    /// mostly the default, in one case out of five another id and / or another version.
+    static CASE_IDENTITY: std::cell::RefCell<(Vec<u8>, Vec<u8>)> = std::cell::RefCell::new((DEFAULT_PID.to_vec(), DEFAULT_VER.to_vec()));
+}
+
+fn case_pid() -> Vec<u8> {
+    CASE_IDENTITY.with(|c| c.borrow().0.clone())
+}
+
+fn case_ver() -> Vec<u8> {
+    CASE_IDENTITY.with(|c| c.borrow().1.clone())
+}
 
 fn proto(pid: &[u8], ver: &[u8]) -> Option<ProtocolIdentity> {
     Some(ProtocolIdentity {
@@ -338,7 +352,7 @@ fn pdec_line(local: &[u8], data: &[u8]) -> String {
     let iv: Vec<u8> = data.iter().take(16).cloned().collect();
     let ks = keystream(local, &iv, data.len().saturating_sub(16).min(1400));
     let (tail, res) = record_oracle(&ks, data);
-    format!("pdec {} {} {} {} {} {} {}", hx(&ks), hx(PID), hx(VER), hx(local), hx(data), tail, res)
+    format!("pdec {} {} {} {} {} {} {}", hx(&ks), hx(&case_pid()), hx(&case_ver()), hx(local), hx(data), tail, res)
 }
 
 /// Builds a datagram from an *unmasked* header + body, masking it for `dst`.
@@ -366,6 +380,15 @@ fn gen_iv(rng: &mut Rng) -> Vec<u8> {
 pub fn gen_case(rng: &mut Rng, _tier: &str, _profile: &str, stats: &mut Stats) -> Vec<String> {
     let mut ops = Vec::new();
     let dst = rng.bytes(32);
+    // the network's protocol identity
+    let ident = match rng.below(10) {
+        0 => (rng.bytes(6), rng.bytes(2)),
+        1 => (DEFAULT_PID.to_vec(), match rng.below(3) { 0 => vec![0, 2], 1 => vec![1, 0], _ => rng.bytes(2) }),
+        _ => (DEFAULT_PID.to_vec(), DEFAULT_VER.to_vec()),
+    };
+    if ident.1 != DEFAULT_VER { stats.bump("gen.case.other-protocol-version"); }
+    if ident.0 != DEFAULT_PID { stats.bump("gen.case.other-protocol-id"); }
+    CASE_IDENTITY.with(|c| *c.borrow_mut() = ident);
     // 1. structured encodes at boundary sizes
     // (one case in eight: its packets are handshakes of one identity, each with another record of the
     // same sequence number)
@@ -399,7 +422,7 @@ pub fn gen_case(rng: &mut Rng, _tier: &str, _profile: &str, stats: &mut Stats) -
         let ks = keystream(&dst, &iv, 23 + authlen);
         ops.push(format!(
             "penc {} {} {} {} {} {} {} {}",
-            hx(&ks), hx(PID), hx(VER), hx(&dst), hx(&iv), hx(&nonce), kind, hx(&msg)
+            hx(&ks), hx(&case_pid()), hx(&case_ver()), hx(&dst), hx(&iv), hx(&nonce), kind, hx(&msg)
         ));
         stats.bump("gen.penc");
     }
@@ -459,11 +482,11 @@ pub fn gen_case(rng: &mut Rng, _tier: &str, _profile: &str, stats: &mut Stats) -
         };
         let mut header = Vec::new();
         let pid: Vec<u8> = if rng.chance(1, 10) {
-            match rng.below(3) { 0 => b"discv4".to_vec(), 1 => b"Discv5".to_vec(), _ => { let mut x = PID.to_vec(); let i = rng.below(6) as usize; x[i] ^= 1 << rng.below(8); x } }
-        } else { PID.to_vec() };
+            match rng.below(4) { 0 => b"discv4".to_vec(), 1 => b"Discv5".to_vec(), 2 => DEFAULT_PID.to_vec(), _ => { let mut x = case_pid(); let i = rng.below(6) as usize; x[i] ^= 1 << rng.below(8); x } }
+        } else { case_pid() };
         let ver: Vec<u8> = if rng.chance(1, 8) {
-            match rng.below(4) { 0 => vec![0, 2], 1 => vec![0, 0], 2 => vec![1, 1], _ => rng.bytes(2) }
-        } else { VER.to_vec() };
+            match rng.below(5) { 0 => vec![0, 2], 1 => vec![0, 0], 2 => vec![1, 1], 3 => DEFAULT_VER.to_vec(), _ => rng.bytes(2) }
+        } else { case_ver() };
         header.extend_from_slice(&pid);
         header.extend_from_slice(&ver);
         header.push(flag);
